@@ -112,6 +112,24 @@ Section Hex.
          end.
 End Hex.
 
+(* ---------------- fixed-width coordinate codecs ---------------- *)
+(* The layout shared by the point encodings whose affine coordinates the
+   harness can compute itself: an optional format prefix followed by each
+   coordinate as exactly [w] bytes in the codec's byte order, zero padded:
+   P-256 uncompressed X9.62 (prefix 4, x, y big endian, w = 32), BN256/BN254 G1
+   (x, y big endian, w = 32), the residue group (one big-endian value,
+   w = 64), Ed25519 (one little-endian value y + 2^255 * sign(x), w = 32).
+   A coordinate with leading zero bytes (any number of them) keeps its place. *)
+Definition coord_enc (bo : border) (w : nat) (prefix : list Z) (cs : list Z) : list Z :=
+  prefix ++ flat_map (encode bo w) cs.
+
+(* reading k coordinates back *)
+Fixpoint coord_dec (bo : border) (w : nat) (k : nat) (bs : list Z) : list Z :=
+  match k with
+  | O => []
+  | S k' => decode bo (firstn w bs) :: coord_dec bo w k' (skipn w bs)
+  end.
+
 (* ---------------- points: computation paths over discrete logarithms ------ *)
 Inductive pexp :=
 | PNull
